@@ -8,7 +8,7 @@ From LV Require Import Base.Bytes Model.Obj Model.DocQ Model.PageTree Model.Trav
   Proofs.EditProofsBm Proofs.EditProofsOutline Proofs.EditProofsContent2 Proofs.EditProofsDecode Proofs.EditProofsRes
   Proofs.EditProofsEx2 Proofs.EditProofsCount Model.StreamFilt.
 From LV Require Import Gen.Consts Spec.Dfs Spec.DfsCounts Spec.PageTreeEdit Proofs.EditProofsTree Proofs.EditProofsTree2 Proofs.EditProofsRes2 Proofs.EditProofsFrame Proofs.EditProofsTree3.
-From LV Require Import Spec.PageTreeEditInd Proofs.EditProofsTreeInd.
+From LV Require Import Spec.PageTreeEditInd Proofs.EditProofsTreeInd Spec.PageTreeEditRef Proofs.EditProofsTreeRef.
 From LV Require Proofs.PageTreeProofs.
 From LV Require Proofs.FilterProofsDict.
 From LV Require Model.Outline Spec.OutlineSpec Proofs.OutlineProofs.
@@ -681,11 +681,9 @@ Qed.
    ([touched]: the ancestors of each deleted page, in the tree it is deleted from) is a DIRECT integer afterwards (the code
    replaces the entry by the number, it never writes into the shared integer object); the others keep their entry and still
    read the right number.
-   _partial: leaves are still dictionary OBJECTS; a page that is a reference object leading to the page dictionary (the shape
-   /repo 526b3cc repaired) is covered at chain level only (C11_delete_pages_one_chain).  What the tree level would need: the
-   invariant "the dictionaries the tree ids END at are pairwise different" (two ids that end at one dictionary are one page)
-   carried through delete_object, and C12's enumeration for such leaves. *)
-Theorem C11_delete_pages_tree_indirect_counts_partial :
+   Here leaves are still dictionary OBJECTS and the document stays in that domain ([page_doc_ind d' t']); pages that are
+   reference objects: C11_delete_pages_tree_indirect below, which contains this domain. *)
+Theorem C11_delete_pages_tree_indirect_counts :
   forall d t ns,
     doc_wf d -> page_doc_ind d t -> (N.of_nat (height t) <= PAGE_TREE_DEPTH_LIMIT + 1)%N ->
     exists d',
@@ -742,6 +740,86 @@ Proof.
   exact (conj H1 (conj H2 (conj tree_ind_example_not_direct (conj H3 H4)))).
 Qed.
 
+
+(* ------------------------------------------------------------------------------------------ *)
+(* The tree-level clause on the whole domain the two repairs /repo e03ecb9 and 526b3cc opened.
+   [page_doc_ref d t] (Spec/PageTreeEditRef.v) = [page_doc d t] where
+   * a Pages node's Count may sit behind references ([count_reads], as above), and
+   * a page may be a REFERENCE OBJECT: the id listed in Kids (and by page_iter / get_pages) names an object that [leads],
+     through any number of reference objects within the crate's dereference limit, to the page dictionary (Type Page,
+     unique keys, Parent = the node the id hangs under); [via] = the ids passed.  A dictionary object is the case via = [];
+   * besides "the listed ids are pairwise different" the objects the page ids END at ([end_of]: the object that holds the
+     dictionary) are pairwise different: two ids that end at one dictionary are one page listed twice (the harness' tree_wf
+     refuses that shape too).
+   [page_doc_ind d t -> page_doc_ref d t] (C11_page_doc_ref_contains_page_doc_ind), hence [page_doc d t -> page_doc_ref d t].
+   Nothing is assumed about the rest of the graph or about ns.  Then delete_pages(ns) neither panics nor hangs and the
+   conclusion of C11_delete_pages_tree holds: the document holds the pruned tree in the same sense -- EVERY Pages node's
+   Count reads the number of leaf pages below it (C12: [tree_wf], [counts_exact], both read through references) --, the
+   page list is the old one minus the pages whose NUMBER is in ns, order kept; a Count that was direct stays direct and
+   every Count the call rewrites ([touched]) is a direct integer afterwards.  For a page that is a reference object the
+   call removes the REFERENCE OBJECT (the id the page list names); the dictionary it led to stays behind as an object
+   nothing in the tree refers to (C11_delete_pages_tree_indirect_example: object 13), as in the code. *)
+Theorem C11_delete_pages_tree_indirect :
+  forall d t ns,
+    doc_wf d -> page_doc_ref d t -> (N.of_nat (height t) <= PAGE_TREE_DEPTH_LIMIT + 1)%N ->
+    exists d',
+      delete_pages d ns = (d', LOk) /\ doc_wf d' /\
+      let t' := prune_all (sel (get_pages d) ns) t in
+      page_doc_ref d' t' /\ PageTreeProofs.tree_wf d' t' /\ counts_exact (d_objects d') t' /\
+      page_iter d = leaves t /\ page_iter d' = leaves t' /\
+      page_iter d' = map snd (filter (fun np => negb (existsb (N.eqb (fst np)) ns)) (get_pages d)) /\
+      (forall x, In x (nodes t) -> count_is_direct (d_objects d) x -> count_is_direct (d_objects d') x) /\
+      (forall x, In x (touched (sel (get_pages d) ns) t) -> count_is_direct (d_objects d') x).
+Proof.
+  intros d t ns W PD Hh. destruct (delete_pages_tree_ref d t ns W PD Hh) as [d' [E [W' [PD' [I1 [I2 [I3 [K T]]]]]]]].
+  exists d'. split; [exact E|]. split; [exact W'|]. cbv zeta.
+  destruct (page_doc_ref_tree_wf _ _ PD') as [TW CE]. repeat (split; [assumption|]). exact T.
+Qed.
+
+(* one round of the loop on that domain *)
+Theorem C11_delete_page_step_ref :
+  forall d t p, doc_wf d -> page_doc_ref d t -> (In p (leaves t) \/ lookup (d_objects d) p = None) ->
+    exists d2,
+      (forall pages n ns, assoc_N pages n = Some p ->
+         delete_pages_loop pages (n :: ns) d = delete_pages_loop pages ns d2) /\
+      doc_wf d2 /\ page_doc_ref d2 (prune p t) /\ leaves (prune p t) = without p (leaves t) /\
+      lookup (d_objects d2) p = None /\
+      (forall x, lookup (d_objects d) x = None -> lookup (d_objects d2) x = None) /\
+      ~ In p (nodes t) /\
+      (forall x, In x (chain p t) -> count_is_direct (d_objects d2) x) /\
+      (forall x, In x (ids t) -> x <> p -> count_is_direct (d_objects d) x -> count_is_direct (d_objects d2) x).
+Proof. exact delete_page_step_ref. Qed.
+
+(* the domain contains the earlier ones, is a [tree_wf] document with exact Counts in C12's vocabulary, and [leads] / [end_of]
+   are what the crate's dereference computes *)
+Theorem C11_page_doc_ref_contains_page_doc_ind :
+  (forall d t, page_doc_ind d t -> page_doc_ref d t) /\
+  (forall d t, page_doc_ref d t -> PageTreeProofs.tree_wf d t /\ counts_exact (d_objects d) t) /\
+  (forall m o via dd, leads m o via dd -> (N.of_nat (length via) <= DEREF_LIMIT)%N ->
+     dereference m o = Some (fold_left (fun _ x => Some x) via None, ODict dd)) /\
+  (forall m id o via dd, lookup m id = Some o -> leads m o via dd -> (N.of_nat (length via) <= DEREF_LIMIT)%N ->
+     end_of m id = Some (fold_left (fun _ x => x) via id)).
+Proof. exact (conj page_doc_ind_is_ref (conj page_doc_ref_tree_wf (conj leads_dereference end_of_leads))). Qed.
+
+(* non-vacuity: the tree of C11_delete_pages_tree_indirect_example with page 3 = a reference object (-> 14), page 5 = a
+   reference object two hops from its dictionary (-> 12 -> 13), page 11 a dictionary; Counts of 2 and 4 behind references.
+   Not a [page_doc_ind].  delete_pages [2; 2; 9; 1] removes the reference objects 5 and 3; Counts 1 / 0 / 1, all direct;
+   the dictionary 13 stays, untouched *)
+Theorem C11_delete_pages_tree_indirect_ref_example :
+  doc_wf tree_doc_ref /\ page_doc_ref tree_doc_ref tree_ex_ind /\ ~ page_doc_ind tree_doc_ref tree_ex_ind /\
+  (N.of_nat (height tree_ex_ind) <= PAGE_TREE_DEPTH_LIMIT + 1)%N /\
+  get_pages tree_doc_ref = [(1, (3,0)); (2, (5,0)); (3, (11,0))]%N /\
+  let d' := fst (delete_pages tree_doc_ref [2; 2; 9; 1]%N) in
+  snd (delete_pages tree_doc_ref [2; 2; 9; 1]%N) = LOk /\
+  page_iter d' = [(11,0)]%N /\
+  count_entry d' (2,0)%N = Some (OInt 1) /\ count_entry d' (4,0)%N = Some (OInt 0) /\
+  count_entry d' (10,0)%N = Some (OInt 1) /\
+  lookup (d_objects d') (5,0)%N = None /\ lookup (d_objects d') (3,0)%N = None /\
+  lookup (d_objects d') (13,0)%N = Some (ODict [(K_Type, OName K_Page); (K_Parent, ORef 4 0)]).
+Proof.
+  destruct tree_ref_example as [H1 [H2 [H3 H4]]].
+  exact (conj H1 (conj H2 (conj tree_ref_example_not_ind (conj H3 H4)))).
+Qed.
 
 Print Assumptions C11_alloc_invariant.
 Print Assumptions C11_alloc_fresh.
@@ -800,7 +878,11 @@ Print Assumptions C11_count_invariant.
 Print Assumptions C11_count_invariant_example.
 Print Assumptions C11_example.
 Print Assumptions C11_example_doc_ops.
-Print Assumptions C11_delete_pages_tree_indirect_counts_partial.
+Print Assumptions C11_delete_pages_tree_indirect_counts.
 Print Assumptions C11_delete_page_step_indirect.
 Print Assumptions C11_page_doc_ind_contains_page_doc.
 Print Assumptions C11_delete_pages_tree_indirect_example.
+Print Assumptions C11_delete_pages_tree_indirect.
+Print Assumptions C11_delete_page_step_ref.
+Print Assumptions C11_page_doc_ref_contains_page_doc_ind.
+Print Assumptions C11_delete_pages_tree_indirect_ref_example.
